@@ -25,6 +25,7 @@ import (
 	apiext "github.com/koordinator-sh/koordinator/apis/extension"
 	slov1alpha1 "github.com/koordinator-sh/koordinator/apis/slo/v1alpha1"
 	"github.com/koordinator-sh/koordinator/pkg/koordlet/metriccache"
+	mockmetriccache "github.com/koordinator-sh/koordinator/pkg/koordlet/metriccache/mockmetriccache"
 	maframework "github.com/koordinator-sh/koordinator/pkg/koordlet/metricsadvisor/framework"
 	"github.com/koordinator-sh/koordinator/pkg/koordlet/qosmanager/framework"
 	"github.com/koordinator-sh/koordinator/pkg/koordlet/statesinformer"
@@ -238,7 +239,7 @@ type c10Pod struct {
 type c10App struct {
 	hasMetric bool
 	qos       int
-	base      int // 0 nil path, 1 kube besteffort, 2 other
+	base      int // 0 nil path, 1 KubepodsBesteffort, 2 Kubepods, 3 non-nil path with empty base, 4 CgroupRoot, 5 KubepodsBurstable
 	used8     int64
 }
 
@@ -254,7 +255,9 @@ type c10BudgetIn struct {
 	apps                 []c10App
 }
 
-func c10GenBudget(r *vRand) c10BudgetIn {
+const c10AppCombos = 36 // 6 QoS values x 6 cgroup-path shapes
+
+func c10GenBudget(r *vRand, j int) c10BudgetIn {
 	in := c10BudgetIn{}
 	in.capMilli = int64(r.Range(2, 64)) * 1000
 	if r.Chance(1, 8) {
@@ -295,8 +298,15 @@ func c10GenBudget(r *vRand) c10BudgetIn {
 		na = 0
 	}
 	for i := 0; i < na; i++ {
-		in.apps = append(in.apps, c10App{hasMetric: !r.Chance(1, 6), qos: int(r.Pick([]int64{c10QBE, c10QBE, c10QLS, c10QNone, c10QLSR})),
-			base: r.Intn(3), used8: int64(r.Range(0, 16))})
+		in.apps = append(in.apps, c10App{hasMetric: !r.Chance(1, 6), qos: int(r.Pick([]int64{c10QBE, c10QBE, c10QBE, c10QLS, c10QNone, c10QLSR, c10QLSE, c10QSys})),
+			base: r.Intn(6), used8: int64(r.Range(0, 16))})
+	}
+	// systematic stream: every (QoS, cgroupPath shape) combination of NonBEHostAppFilter, with a metric
+	if j%3 == 0 {
+		k := (j / 3) % c10AppCombos
+		a := c10App{hasMetric: true, qos: k / 6, base: k % 6, used8: int64(r.Range(1, 16))}
+		pos := r.Intn(len(in.apps) + 1)
+		in.apps = append(in.apps[:pos], append([]c10App{a}, in.apps[pos:]...)...)
 	}
 	switch r.Intn(4) {
 	case 0:
@@ -381,8 +391,17 @@ func c10RunBudget(h *vHarness, in c10BudgetIn) (int64, bool) {
 			spec.CgroupPath = &slov1alpha1.CgroupPath{Base: slov1alpha1.CgroupBaseTypeKubeBesteffort, RelativePath: "x"}
 		case 2:
 			spec.CgroupPath = &slov1alpha1.CgroupPath{Base: slov1alpha1.CgroupBaseTypeKubepods, RelativePath: "x"}
+		case 3:
+			spec.CgroupPath = &slov1alpha1.CgroupPath{}
+		case 4:
+			spec.CgroupPath = &slov1alpha1.CgroupPath{Base: slov1alpha1.CgroupBaseTypeRoot, ParentDir: "host-latency-sensitive/", RelativePath: "x"}
+		case 5:
+			spec.CgroupPath = &slov1alpha1.CgroupPath{Base: slov1alpha1.CgroupBaseTypeKubeBurstable}
 		}
 		apps = append(apps, spec)
+		if a.hasMetric {
+			h.Tag(fmt.Sprintf("app:qos%d-base%d", a.qos, a.base))
+		}
 		if a.hasMetric {
 			appMetrics[spec.Name] = float64(a.used8) / 8
 			appTok = append(appTok, int64(a.qos), int64(a.base), c10Milli8(a.used8))
@@ -489,7 +508,7 @@ func TestVerifC10(t *testing.T) {
 		}
 		switch idx % 4 {
 		case 0:
-			c10CaseBudget(h, r)
+			c10CaseBudget(h, r, idx/4)
 		case 1:
 			c10CasePolicy(h, r)
 		case 2:
@@ -508,8 +527,8 @@ func TestVerifC10(t *testing.T) {
 		"non-trivial = budget with >=1 metric; policy with 0<k<=n; cpuset with >=1 eligible CPU and a write; quota that is written (not bypassed); distinct by op line")
 }
 
-func c10CaseBudget(h *vHarness, r *vRand) {
-	in := c10GenBudget(r)
+func c10CaseBudget(h *vHarness, r *vRand, j int) {
+	in := c10GenBudget(r, j)
 	got1, ok := c10RunBudget(h, in)
 	h.Tag("kind:budget")
 	if !ok {
@@ -631,6 +650,34 @@ type c10CPod struct {
 	kind  int // 0 valid, 1 no annotation, 2 malformed json, 3 empty cpuset, 4 unparsable cpuset
 	cpus  []int
 	style int
+	life  int // 0 phase unset, 1 Running, 2 Running+deletionTimestamp, 3 Pending, 4 Succeeded, 5 Failed, 6 Failed+deletionTimestamp
+}
+
+// c10Life draws a lifecycle state: half of the pods are plainly running, the rest spread over every other state.
+func c10Life(r *vRand) int {
+	if r.Bool() {
+		return r.Intn(2)
+	}
+	return r.Range(2, 6)
+}
+
+func c10ApplyLife(pod *corev1.Pod, life int) {
+	switch life {
+	case 1, 2:
+		pod.Status.Phase = corev1.PodRunning
+	case 3:
+		pod.Status.Phase = corev1.PodPending
+	case 4:
+		pod.Status.Phase = corev1.PodSucceeded
+	case 5, 6:
+		pod.Status.Phase = corev1.PodFailed
+	}
+	if life == 2 || life == 6 {
+		ts := metav1.Unix(1700000000, 0)
+		pod.DeletionTimestamp = &ts
+		g := int64(30)
+		pod.DeletionGracePeriodSeconds = &g
+	}
 }
 
 func c10CaseCPUSet(t *testing.T, h *vHarness, r *vRand, cg *c10Cgroup, beDir string) {
@@ -655,6 +702,7 @@ func c10CaseCPUSet(t *testing.T, h *vHarness, r *vRand, cg *c10Cgroup, beDir str
 		if r.Chance(1, 8) {
 			p.kind = r.Range(1, 4)
 		}
+		p.life = c10Life(r)
 		src := free
 		if overlapping {
 			src = ids
@@ -752,7 +800,28 @@ func c10CaseCPUSet(t *testing.T, h *vHarness, r *vRand, cg *c10Cgroup, beDir str
 		if len(reserved) == 0 {
 			delete(topoAnno, apiext.AnnotationNodeReservation)
 		}
-		pods = append(pods, c10CPod{qos: c10QLSE, cpus: append([]int(nil), ids[cut:]...)})
+		pods = append(pods, c10CPod{qos: c10QLSE, cpus: append([]int(nil), ids[cut:]...), life: c10Life(r)})
+	}
+	// an LSE pod in graceful termination / already finished that owns a whole core pair (the seeded C10-c shape)
+	if r.Chance(1, 6) && len(free) >= 2 && !overlapping {
+		j := r.Intn(len(free) - 1)
+		pods = append(pods, c10CPod{qos: c10QLSE, cpus: []int{free[j], free[j+1]}, style: r.Intn(3), life: r.Range(2, 6)})
+	}
+	// topology object missing; kubelet CPU-manager policy annotation
+	topoNil := r.Chance(1, 60)
+	kp := 0 // 0 none, 1 static, 2 malformed
+	switch r.Intn(12) {
+	case 6:
+		topoAnno[apiext.AnnotationKubeletCPUManagerPolicy] = `{"policy":"none"}`
+	case 7, 8:
+		kp = 1
+		topoAnno[apiext.AnnotationKubeletCPUManagerPolicy] = `{"policy":"static"}`
+	case 9, 10:
+		kp = 1
+		topoAnno[apiext.AnnotationKubeletCPUManagerPolicy] = `{"policy":"static","options":{"full-pcpus-only":"true"},"reservedCPUs":"0"}`
+	case 11:
+		kp = 2
+		topoAnno[apiext.AnnotationKubeletCPUManagerPolicy] = `{"policy":`
 	}
 
 	// budget / old cpuset
@@ -787,15 +856,17 @@ func c10CaseCPUSet(t *testing.T, h *vHarness, r *vRand, cg *c10Cgroup, beDir str
 	tok = append(tok, strings.Fields(c10ProcTokens(ps))...)
 	tok = append(tok, strconv.Itoa(len(pods)))
 	for _, p := range pods {
-		valid := p.kind == 0 && len(p.cpus) > 0
-		tok = append(tok, strconv.Itoa(vB(valid)), strconv.Itoa(p.qos))
-		if valid {
+		tok = append(tok, strconv.Itoa(p.kind), strconv.Itoa(p.qos), strconv.Itoa(p.life))
+		if p.kind == 0 {
 			tok = append(tok, strconv.Itoa(len(p.cpus)))
 			for _, c := range p.cpus {
 				tok = append(tok, strconv.Itoa(c))
 			}
 		} else {
 			tok = append(tok, "0")
+		}
+		if p.qos == c10QLSE && p.kind == 0 && len(p.cpus) > 0 {
+			h.Tag(fmt.Sprintf("cpuset:lse-life-%d", p.life))
 		}
 	}
 	tok = append(tok, strconv.Itoa(len(reserved)))
@@ -806,8 +877,10 @@ func c10CaseCPUSet(t *testing.T, h *vHarness, r *vRand, cg *c10Cgroup, beDir str
 	for _, c := range sysCPUs {
 		tok = append(tok, strconv.Itoa(c))
 	}
+	tok = append(tok, strconv.Itoa(vB(topoNil)), strconv.Itoa(kp))
 	h.Op("%s", strings.Join(tok, " "))
 	h.Tag("kind:cpuset")
+	h.Tag(fmt.Sprintf("cpuset:kubelet-policy-%d", kp))
 
 	// ---- real objects
 	var metas []*statesinformer.PodMeta
@@ -827,46 +900,92 @@ func c10CaseCPUSet(t *testing.T, h *vHarness, r *vRand, cg *c10Cgroup, beDir str
 		case 4:
 			pod.Annotations = map[string]string{apiext.AnnotationResourceStatus: `{"cpuset": "0-"}`}
 		}
+		c10ApplyLife(pod, p.life)
 		metas = append(metas, &statesinformer.PodMeta{Pod: pod})
 	}
-	topo := &topov1alpha1.NodeResourceTopology{ObjectMeta: metav1.ObjectMeta{Name: "n"}}
-	if len(topoAnno) > 0 || r.Bool() {
-		topo.Annotations = topoAnno
+	var topo *topov1alpha1.NodeResourceTopology
+	if !topoNil {
+		topo = &topov1alpha1.NodeResourceTopology{ObjectMeta: metav1.ObjectMeta{Name: "n"}}
+		if len(topoAnno) > 0 || r.Bool() {
+			topo.Annotations = topoAnno
+		}
+	} else {
+		h.Tag("cpuset:topo-nil")
 	}
+	info := &metriccache.NodeCPUInfo{ProcessorInfos: ps}
 	ctrl := gomock.NewController(t)
 	si := mockstatesinformer.NewMockStatesInformer(ctrl)
 	si.EXPECT().GetAllPods().Return(metas).AnyTimes()
 	si.EXPECT().GetNodeTopo().Return(topo).AnyTimes()
+	mc := mockmetriccache.NewMockMetricCache(ctrl)
+	mc.EXPECT().Get(metriccache.NodeCPUInfoKey).Return(info, true).AnyTimes()
 	s, stop := c10NewSuppress(si)
+	s.metricCache = mc
 	defer close(stop)
 
 	oldStr := c10SetStr(old, 2) + "\n" // non-canonical + trailing newline: the code never writes this form
 	cg.write(t, koordletutil.GetPodQoSRelativePath(corev1.PodQOSGuaranteed), system.CPUSet, c10SetStr(ids, 0))
-	cg.write(t, beDir, system.CPUSet, oldStr)
-	for _, d := range []string{"pod1", "pod2"} {
-		cg.write(t, filepath.Join(beDir, d), system.CPUSet, oldStr)
+	podDir, contDir := filepath.Join(beDir, "pod1"), filepath.Join(beDir, "pod1", "c1")
+	allDirs := []string{beDir, podDir, contDir, filepath.Join(beDir, "pod2"), filepath.Join(beDir, "pod2", "c2"), filepath.Join(beDir, "pod2", "c3")}
+	for _, d := range allDirs {
+		cg.write(t, d, system.CPUSet, oldStr)
 	}
+	// ---- path 2 first (pure): calcBECPUSet on the same informer state
+	var beset []int
+	besetOK := false
+	if h.Guard(func() {
+		if bs, err := s.calcBECPUSet(); err == nil && bs != nil {
+			beset, besetOK = bs.ToSlice(), true
+		}
+	}) {
+		h.Obs("panic")
+		h.Fail("C10:panic", "calcBECPUSet panicked: %v", h.extra["last_panic"])
+		return
+	}
+	// ---- path 1: adjustByCPUSet
 	q := resource.NewMilliQuantity(budget, resource.DecimalSI)
-	info := &metriccache.NodeCPUInfo{ProcessorInfos: ps}
 	if h.Guard(func() { s.adjustByCPUSet(q, info) }) {
 		h.Obs("panic")
 		h.Fail("C10:panic", "adjustByCPUSet panicked: %v", h.extra["last_panic"])
 		return
 	}
-	raw := cg.read(t, beDir, system.CPUSet)
-	written := raw != oldStr
-	set, err := cpuset.Parse(strings.Trim(raw, "\n"))
-	if err != nil {
-		h.Obs("set unparsable")
-		h.Fail("C10:cpuset-unparsable", "cpuset.cpus content %q", raw)
+	readSet := func(dir, tag string) ([]int, string, bool) {
+		raw := cg.read(t, dir, system.CPUSet)
+		set, err := cpuset.Parse(strings.Trim(raw, "\n"))
+		if err != nil {
+			h.Obs("%s unparsable", tag)
+			h.Fail("C10:cpuset-unparsable", "cpuset.cpus content %q in %s", raw, dir)
+			return nil, raw, false
+		}
+		sl := set.ToSlice()
+		xs := make([]int64, len(sl))
+		for i, c := range sl {
+			xs[i] = int64(c)
+		}
+		h.Obs("%s", strings.TrimSpace(tag+" "+vInts(xs)))
+		return sl, raw, true
+	}
+	rootSet, rootRaw, ok1 := readSet(beDir, "set")
+	_, podRaw, ok2 := readSet(podDir, "pod")
+	contSet, contRaw, ok3 := readSet(contDir, "cont")
+	if !ok1 || !ok2 || !ok3 {
 		return
 	}
-	final := set.ToSlice()
-	fx := make([]int64, len(final))
-	for i, c := range final {
-		fx[i] = int64(c)
+	if besetOK {
+		xs := make([]int64, len(beset))
+		for i, c := range beset {
+			xs[i] = int64(c)
+		}
+		h.Obs("%s", strings.TrimSpace("beset "+vInts(xs)))
+	} else {
+		h.Obs("beset err")
 	}
-	h.Obs("%s", strings.TrimSpace("set "+vInts(fx)))
+	// the set BE containers end up with: container level under the static policy, every level otherwise
+	final, raw := rootSet, rootRaw
+	if kp == 1 {
+		final, raw = contSet, contRaw
+	}
+	written := raw != oldStr
 
 	// ---- oracle (from scratch)
 	exist := map[int]bool{}
@@ -881,7 +1000,7 @@ func c10CaseCPUSet(t *testing.T, h *vHarness, r *vRand, cg *c10Cgroup, beDir str
 	for _, c := range sysCPUs {
 		sysSet[c] = true
 	}
-	owners := map[int]map[int]bool{} // cpu -> set of QoS classes of valid pods claiming it
+	owners := map[int]map[int]bool{} // cpu -> set of QoS classes of the pods in the list whose annotation names it (any lifecycle state)
 	for _, p := range pods {
 		if p.kind != 0 {
 			continue
@@ -922,23 +1041,26 @@ func c10CaseCPUSet(t *testing.T, h *vHarness, r *vRand, cg *c10Cgroup, beDir str
 		h.Tag("cpuset:step-limited")
 	}
 	enough := int64(eligibleN) >= want
+	protected := func(prefix string, set []int) {
+		for _, c := range set {
+			switch {
+			case !exist[c]:
+				h.Fail("C10:"+prefix+"-unknown-cpu", "cpu %d written to the BE cpuset does not exist", c)
+			case resSet[c]:
+				h.Fail("C10:"+prefix+"-reserved-cpu", "cpu %d is reserved by the node annotation", c)
+			case sysSet[c]:
+				h.Fail("C10:"+prefix+"-system-cpu", "cpu %d is exclusive to system QoS", c)
+			case lseExclusive(c):
+				h.Fail("C10:"+prefix+"-lse-cpu", "cpu %d is exclusively owned by an LSE pod that is still in the pod list", c)
+			}
+		}
+	}
 	if written {
 		h.Tag("cpuset:written")
 		if eligibleN > 0 {
 			h.Nontrivial()
 		}
-		for _, c := range final {
-			switch {
-			case !exist[c]:
-				h.Fail("C10:cpuset-unknown-cpu", "cpu %d written to the BE cpuset does not exist", c)
-			case resSet[c]:
-				h.Fail("C10:cpuset-reserved-cpu", "cpu %d is reserved by the node annotation", c)
-			case sysSet[c]:
-				h.Fail("C10:cpuset-system-cpu", "cpu %d is exclusive to system QoS", c)
-			case lseExclusive(c):
-				h.Fail("C10:cpuset-lse-cpu", "cpu %d is exclusively owned by an LSE pod", c)
-			}
-		}
+		protected("cpuset", final)
 		if int64(len(final)) > want {
 			h.Fail("C10:cpuset-over-budget", "%d cpus written, budget allows %d (budget %dm, old %d, step %d)", len(final), want, budget, len(old), step)
 		}
@@ -948,8 +1070,11 @@ func c10CaseCPUSet(t *testing.T, h *vHarness, r *vRand, cg *c10Cgroup, beDir str
 	} else {
 		h.Tag("cpuset:untouched")
 		// the updater skips a write whose value equals the file's current set: an unchanged file is
-		// fine iff its content already is a valid answer
-		if enough && !ambiguous && eligibleN > 0 {
+		// fine iff its content already is a valid answer.  Without a topology object or with an
+		// unreadable kubelet-policy annotation the agent cannot act at all (degenerate input, tagged).
+		if topoNil || kp == 2 {
+			h.Tag("cpuset:cannot-act")
+		} else if enough && !ambiguous && eligibleN > 0 {
 			okAnswer := int64(len(final)) == want
 			for _, c := range final {
 				if !exist[c] || resSet[c] || sysSet[c] || lseExclusive(c) {
@@ -963,6 +1088,35 @@ func c10CaseCPUSet(t *testing.T, h *vHarness, r *vRand, cg *c10Cgroup, beDir str
 			}
 		}
 	}
+	// static policy: the BE root / pod dirs are rewritten by the recover path; they must not gain protected CPUs either
+	if kp == 1 && rootRaw != oldStr {
+		h.Tag("cpuset:static-root-recovered")
+		protected("cpuset", rootSet)
+	}
+	// the recover path (calcBECPUSet) on the same inputs: no protected CPU (here ANY LSE claim protects), and
+	// it must agree with the suppress path about which CPUs BE may get
+	if besetOK {
+		inBE := map[int]bool{}
+		for _, c := range beset {
+			inBE[c] = true
+		}
+		protected("recover", beset)
+		anyLSE := func(c int) bool { return owners[c][c10QLSE] }
+		for _, c := range ids {
+			if !resSet[c] && !sysSet[c] && !anyLSE(c) && !inBE[c] {
+				h.Fail("C10:cpuset-paths-disagree", "cpu %d is eligible for the suppress path but missing from the recover path's BE cpuset %v", c, beset)
+			}
+		}
+		if written && !ambiguous {
+			for _, c := range final {
+				if !inBE[c] {
+					h.Fail("C10:cpuset-paths-disagree", "cpu %d written by adjustByCPUSet is excluded by calcBECPUSet (%v)", c, beset)
+				}
+			}
+		}
+	} else if !topoNil {
+		h.Fail("C10:cpuset-paths-disagree", "calcBECPUSet failed although a topology object exists")
+	}
 	switch {
 	case eligibleN == 0:
 		h.Tag("cpuset:none-eligible")
@@ -974,10 +1128,8 @@ func c10CaseCPUSet(t *testing.T, h *vHarness, r *vRand, cg *c10Cgroup, beDir str
 	if ambiguous {
 		h.Tag("cpuset:overlapping-lse")
 	}
-	for _, d := range []string{"pod1", "pod2"} {
-		if written && cg.read(t, filepath.Join(beDir, d), system.CPUSet) != raw {
-			h.Tag("cpuset:child-differs")
-		}
+	if written && (podRaw != raw || contRaw != raw) && kp != 1 {
+		h.Tag("cpuset:child-differs")
 	}
 }
 
@@ -1015,6 +1167,14 @@ func c10CaseQuota(t *testing.T, h *vHarness, r *vRand, cg *c10Cgroup, beDir stri
 	}
 	if cur < -1 {
 		cur = -1
+	}
+	// gated stream (VERIF_C10_UNLIMITED_BYPASS=1): BE currently unlimited (-1) and a finite target inside the 1 % bypass
+	// band, i.e. 2000 < target < capacity x 1000 - 1  (budget between 20m and 1 % of the node)
+	gated := os.Getenv("VERIF_C10_UNLIMITED_BYPASS") == "1"
+	if gated && r.Chance(1, 3) && cores >= 3 {
+		cur = -1
+		budget = int64(r.Range(21, int(cores*10-1)))
+		target = budget * 100
 	}
 	h.Op("quota %d %d %d", budget, cur, capMilli)
 	h.Tag("kind:quota")
@@ -1056,6 +1216,15 @@ func c10CaseQuota(t *testing.T, h *vHarness, r *vRand, cg *c10Cgroup, beDir stri
 		h.Tag("quota:target")
 	case got == cur && !written && diff < cores*1000 && target != 2000:
 		h.Tag("quota:bypass")
+		if cur == -1 {
+			// the "current quota" -1 is the unlimited sentinel, not a number 1 % away from the target:
+			// BE keeps running without any quota although the budget is finite
+			h.Tag("quota:bypass-stays-unlimited")
+			if gated {
+				h.Fail("C10:quota-stays-unlimited", "budget %dm => target quota %d, but cpu.cfs_quota_us stays -1 (unlimited): |%d - (-1)| < 1%% of %d CPUs x period",
+					budget, target, target, cores)
+			}
+		}
 	case cur != -1 && target-cur > cores*10000 && got == cur+cores*10000:
 		h.Tag("quota:step")
 	default:
